@@ -9,13 +9,13 @@ EXTENDS Source, SettingsPool, Json, SequencesExt
 CONSTANTS FAMILY, ALLSETTINGS, WITHPROG
 
 Cases == CASE FAMILY = "G1a_1" -> G1a_1(0) [] FAMILY = "G1a_2" -> G1a_2(0) [] FAMILY = "G1b" -> G1b(0) [] FAMILY = "G1c" -> G1c(0)
-         [] FAMILY = "G2p_2" -> G2p_2(0) [] FAMILY = "G2p_3" -> G2p_3(0) [] FAMILY = "G2s" -> G2Shapes(0) [] FAMILY = "G2p_3s" -> G2p_3s(0)
+         [] FAMILY = "G2p_2" -> G2p_2(0) [] FAMILY = "G2p_3" -> G2p_3(0) [] FAMILY = "G2s" -> G2Shapes(0) [] FAMILY = "G2p_3s" -> G2p_3s(0) [] FAMILY = "G7" -> G7(0) [] FAMILY = "G8" -> G8(0) [] FAMILY = "G8b" -> G8b(0)
 
 VARIABLES c, S, reg, gst
 vars == <<c, S, reg, gst>>
 
 Init == /\ c \in Cases
-        /\ S \in (IF ALLSETTINGS THEN SettingsPool ELSE {Base})
+        /\ S \in (IF FAMILY = "G7" THEN SubSettings ELSE IF FAMILY = "G8" THEN DeriveSettings ELSE IF FAMILY = "G8b" THEN CompactAsSettings ELSE IF ALLSETTINGS THEN SettingsPool ELSE {Base})
         /\ reg = Register(ProgOf(c), c.roots).reg
         /\ gst = GenStart(reg, GenInit)
 
@@ -69,6 +69,20 @@ M_C05 == (gst.res = "ok" /\ Tog) =>
              LET it == FindItem(ModelRoot, <<S.root>> \o d.mod \o <<d.ident>>) IN
              it.kind # "none" /\ ItemAgrees(ExpectedItem(ProgOf(c), S, d), it)
 DesignC05 == Terminal => M_C05
+
+\* C07 on the model: substituted paths are neither defined nor referenced; occurrences are checked inside Faithful (SubstMatch)
+M_AllTys == FlattenSeq([k \in DOMAIN gst.items |-> ItemFieldTys(gst.items[k].item)])
+M_C07 == gst.res = "ok" =>
+           \A r \in DOMAIN S.subs :
+             LET src == <<S.root>> \o S.subs[r].src.segs IN
+             /\ FindItem(ModelRoot, src).kind = "none"
+             /\ \A i \in DOMAIN M_AllTys : ~RefersTo(M_AllTys[i], src)
+             /\ \A id \in Ids(reg) : LET pr == ResolveTypePath(reg, S, id) IN pr.err = "" => ~RefersTo(pr.ty, src)
+DesignC07 == Terminal => (M_C07 /\ (CF => M_C01))
+
+\* C08 on the model: Must <= derives <= May for every generated item (see Props in TV_Gen for the same predicate on the implementation)
+M_C08 == gst.res = "ok" => \A k \in DOMAIN gst.items : C08_ItemOK(reg, S, ModelRoot, gst.items[k].path, gst.items[k].item.derives, gst.items[k].item.attrs, gst.items[k].item)
+DesignC08 == Terminal => M_C08
 
 \* design-level invariants: C01 for coincidence-free programs, C02/C10 for all
 DesignC01 == (Terminal /\ CF) => M_C01
